@@ -254,8 +254,8 @@ Proof. exact sample_cfg_clean. Qed.
    with the source on every run and K-date runs the real function).  The theorems above assume
    "cfg_clean c": the ident and the date of the configuration contain no CR / LF.  For the date this is
    no assumption: for EVERY time stamp the value consists of printable ASCII only, and up to the year
-   9999 it is an IMF-fixdate  Www, DD Mon YYYY HH:MM:SS GMT  of 29 characters (month and day bounds by a
-   complete sweep over the 146097 days of a 400-year era, lifted to all days). *)
+   9999 it is an IMF-fixdate  Www, DD Mon YYYY HH:MM:SS GMT  of 29 characters (month and day bounds by linear
+   arithmetic over the era / day-of-era computation; digit counts by two small finite sweeps). *)
 From WV Require Model.HttpDate Proof.HttpDate.
 Module HD := WV.Model.HttpDate.
 Module HDP := WV.Proof.HttpDate.
